@@ -412,7 +412,7 @@ def run(tier):
         "modelled, not verified: parse_schema_element / parse_logical_type (src/thrift/parquet_types.c) are exercised through the files but have no Gallina model here (C13 owns the Thrift layer); allocation failure in the builder (C19)",
         "stack use of the recursive traversal is bounded by the element-count limit (theorem traverse_depth_bounded); the frame size is not measured here (C04)",
     ]
-    maxn = 5 if tier == "quick" else 7
+    maxn = 6 if tier == "quick" else 7
     rep.cov["rule"] = ("every ordered forest with <= %d nodes below the root x every labelling by {REQUIRED, OPTIONAL, REPEATED} "
                        "(random physical/logical types, random root repetition); random forests to 200 nodes / depth 12 with duplicate names; "
                        "chains to depth 9998 and flat schemas to 9999 columns; arbitrary element lists with child counts in "
